@@ -27,6 +27,7 @@ type FakeTty struct {
 	cb       func()
 	LogReads bool
 	WsErr    error // if set, WindowSize fails
+	LogWS    bool  // log WindowSize calls, and Read calls entered while the tty is stopped (engine modes, C04)
 }
 
 func NewFakeTty(w, h int) *FakeTty {
@@ -73,6 +74,9 @@ func (t *FakeTty) NotifyResize(cb func()) {
 func (t *FakeTty) WindowSize() (tcell.WindowSize, error) {
 	t.mu.Lock()
 	defer t.mu.Unlock()
+	if t.LogWS {
+		t.log("WindowSize")
+	}
 	if t.WsErr != nil {
 		return tcell.WindowSize{}, t.WsErr
 	}
@@ -81,6 +85,9 @@ func (t *FakeTty) WindowSize() (tcell.WindowSize, error) {
 func (t *FakeTty) Read(b []byte) (int, error) {
 	t.mu.Lock()
 	defer t.mu.Unlock()
+	if t.LogWS && t.stopped {
+		t.log("Read-after-Stop")
+	}
 	for {
 		if t.closed {
 			return 0, io.EOF
